@@ -6,7 +6,7 @@ import random
 
 from .. import core, gen, sx
 
-THEOREMS = ['C12.peq_is_expansion_equality', 'C12.peq_refl', 'C12.peq_symm', 'C12.peq_trans',
+THEOREMS = ['C12.python_pattern_operations_are_the_model', 'C12.peq_is_expansion_equality', 'C12.peq_refl', 'C12.peq_symm', 'C12.peq_trans',
             'C12.evar_is_free_transparent', 'C12.metavars_transparent', 'C12.instantiate_transparent',
             'C12.esubst_transparent', 'C12.ssubst_transparent', 'C12.simplify_transparent', 'C12.instantiate_compose']
 
